@@ -167,6 +167,28 @@ func (g *gen) element(parent *Node, depth int, scope []binding, top bool) *Node 
 			scope = append(scope, binding{p, u})
 		}
 	}
+	if g.cfg.Wide && !g.cfg.NoNS && rapid.IntRange(0, 11).Draw(g.t, "manyDecls") == 0 {
+		// many bindings in scope (size thresholds): 5-12 further prefixes,
+		// often with a default namespace among them
+		nd := rapid.IntRange(5, 12).Draw(g.t, "nManyDecls")
+		for i := 0; i < nd; i++ {
+			p := "n" + string(rune('a'+i))
+			u := g.pick("manyURI", []string{"urn:x", "urn:y", "urn:n" + string(rune('a'+i))})
+			n.Decls = append(n.Decls, Event{K: "N", Local: p, Value: u})
+			scope = append(scope, binding{p, u})
+		}
+		declared := false
+		for _, d := range n.Decls {
+			if d.Local == "" {
+				declared = true
+			}
+		}
+		if !declared && rapid.Bool().Draw(g.t, "manyDefault") {
+			u := g.pick("declURI", uris)
+			n.Decls = append(n.Decls, Event{K: "N", Local: "", Value: u})
+			scope = append(scope, binding{"", u})
+		}
+	}
 	// element name: pick a binding in scope or none
 	n.Local = g.pick("elemName", g.cfg.Names)
 	var usable []binding
@@ -234,6 +256,13 @@ func (g *gen) element(parent *Node, depth int, scope []binding, top bool) *Node 
 		}
 		if !dup {
 			n.Attrs = append(n.Attrs, a)
+		}
+	}
+	if g.cfg.Wide && rapid.IntRange(0, 11).Draw(g.t, "manyAttrs") == 0 {
+		// many attributes (size thresholds): 3-12 further ones
+		extra := rapid.IntRange(3, 12).Draw(g.t, "nManyAttrs")
+		for i := 0; i < extra; i++ {
+			n.Attrs = append(n.Attrs, &Node{Kind: Attr, Parent: n, Local: "m" + string(rune('a'+i)), Value: g.value("attrVal")})
 		}
 	}
 	// children
